@@ -14,6 +14,7 @@ import (
 	"strings"
 	"sync"
 	"sync/atomic"
+	"syscall"
 	"testing"
 	"time"
 
@@ -72,6 +73,9 @@ func TestMain(m *testing.M) {
 		}
 		if rp.Phase == "shared_domain" || rp.Phase == "race_shared_domain" {
 			ev.RunReplay(rp, runShared)
+		}
+		if rp.Phase == "fd_exhaustion" {
+			ev.RunReplay(rp, func(s float64) *ev.Failure { return runFDExhaustion(time.Duration(s * float64(time.Second))) })
 		}
 		if rp.Phase == "stop_after_failed_start" {
 			ev.RunReplay(rp, runFailStart)
@@ -877,7 +881,131 @@ func runShared(rounds int) *ev.Failure {
 	return fail
 }
 
+// runFDExhaustion: the process runs out of file descriptors while exporters are connected and one
+// more connection is pending, stays that way for hold, and then Stop is called: it must still
+// return promptly. Linux only; the descriptor limit of this process is lowered for the duration
+// and restored afterwards, so the scenario runs alone.
+func runFDExhaustion(hold time.Duration) *ev.Failure {
+	if runtime.GOOS != "linux" {
+		return nil
+	}
+	var old syscall.Rlimit
+	if err := syscall.Getrlimit(syscall.RLIMIT_NOFILE, &old); err != nil {
+		return nil
+	}
+	cp, err := collector.InitCollectingProcess(collector.CollectorInput{Address: "127.0.0.1:0", Protocol: "tcp", MaxBufferSize: 65535})
+	if err != nil {
+		return nil
+	}
+	go cp.Start()
+	for i := 0; i < 3000 && cp.GetAddress() == nil; i++ {
+		time.Sleep(time.Millisecond)
+	}
+	if cp.GetAddress() == nil {
+		return nil
+	}
+	stopDrain, drained := make(chan struct{}), make(chan struct{})
+	go func() {
+		defer close(drained)
+		for {
+			select {
+			case <-cp.GetMsgChan():
+			case <-stopDrain:
+				return
+			}
+		}
+	}()
+	var conns []net.Conn
+	var fillers []*os.File
+	restore := func() {
+		for _, f := range fillers {
+			f.Close()
+		}
+		fillers = nil
+		syscall.Setrlimit(syscall.RLIMIT_NOFILE, &old)
+		for _, c := range conns {
+			c.Close()
+		}
+	}
+	for k := 0; k < 3; k++ {
+		c, err := net.Dial("tcp", cp.GetAddress().String())
+		if err != nil {
+			restore()
+			cp.Stop()
+			close(stopDrain)
+			<-drained
+			return nil
+		}
+		c.Write(message(k, 0))
+		conns = append(conns, c)
+	}
+	time.Sleep(50 * time.Millisecond)
+	ents, err := os.ReadDir("/proc/self/fd")
+	if err != nil {
+		restore()
+		cp.Stop()
+		close(stopDrain)
+		<-drained
+		return nil
+	}
+	lim := old
+	lim.Cur = uint64(len(ents) + 24)
+	if lim.Cur >= old.Cur || syscall.Setrlimit(syscall.RLIMIT_NOFILE, &lim) != nil {
+		restore()
+		cp.Stop()
+		close(stopDrain)
+		<-drained
+		return nil
+	}
+	for {
+		f, err := os.Open("/dev/null")
+		if err != nil {
+			break
+		}
+		fillers = append(fillers, f)
+		if len(fillers) > 4096 {
+			break
+		}
+	}
+	exhausted := len(fillers) > 0 && len(fillers) <= 4096
+	if exhausted {
+		// free exactly one slot and use it for a connection: it completes in the kernel, the
+		// collector cannot accept it
+		fillers[len(fillers)-1].Close()
+		fillers = fillers[:len(fillers)-1]
+		if c, err := net.Dial("tcp", cp.GetAddress().String()); err == nil {
+			conns = append(conns, c)
+		}
+		time.Sleep(hold)
+	}
+	t0 := time.Now()
+	stopped := make(chan struct{})
+	go func() { cp.Stop(); close(stopped) }()
+	var fail *ev.Failure
+	select {
+	case <-stopped:
+		if d := time.Since(t0); exhausted && d > 2*time.Second {
+			fail = ev.Failf("after the process had been out of file descriptors for %v (3 exporters connected, one connection pending), Stop took %v", hold, d.Round(10*time.Millisecond))
+		}
+	case <-time.After(30 * time.Second):
+		fail = ev.Failf("after the process had been out of file descriptors for %v, Stop did not return within 30 s", hold)
+	}
+	restore()
+	close(stopDrain)
+	<-drained
+	return fail
+}
+
 func TestC12(t *testing.T) {
+	if ev.Shard() <= 1 {
+		hold := 11 * time.Second
+		f := runFDExhaustion(hold)
+		rec.Case(ev.Hash([]any{"fd_exhaustion", hold.Seconds()}), true, "stop_after_descriptor_exhaustion")
+		if f != nil {
+			rec.Violation("fd_exhaustion", hold.Seconds(), f.Msg)
+			t.Fatalf("%s", f.Msg)
+		}
+	}
 	if ev.Shard() <= 1 {
 		rounds := 300
 		if rec.Thorough() {
